@@ -463,9 +463,6 @@ void World::opRange(const Step &s)
     std::vector<size_t> ca = edgesWhere([&](const EdgeSlot &e) {
         if (e.forest < 0 || !forests[e.forest].alive || !e.oracle) return false;
         FKind k = forests[e.forest].kind();
-        // KF-C05-5: range queries ignore the implicit zeros of identity-skipped
-        // levels in identity-reduced relation forests (probe plans only)
-        if (forests[e.forest].spec.rel && forests[e.forest].spec.red == 2 && s.a[5] != 999) return false;
         return k == FK_MTI || k == FK_MTR;
     });
     if (ca.empty()) { note(OC_SKIP); return; }
